@@ -285,6 +285,16 @@ func genSig(w *bufio.Writer, r *rng, id, size int) {
 		fmt.Fprintf(w, "impl panic\n")
 	case err != nil:
 		fmt.Fprintf(w, "impl err\n")
+		// the same value in a list, followed by a function that is fine: the list is rejected as a whole
+		lst := "err"
+		if recovered(func() {
+			if fs, lerr := am.NewFuncList([]interface{}{f, func(a int) int { return a }}); lerr == nil {
+				lst = fmt.Sprintf("ok:%d", len(fs))
+			}
+		}) {
+			lst = "panic"
+		}
+		fmt.Fprintf(w, "list %s\n", lst)
 	default:
 		fmt.Fprintf(w, "impl ok\niv %s\nov %s\nilk %s\nolk %s\n", valuesStr(fn.Input().Values()), valuesStr(fn.Output().Values()),
 			lookupsStr(fn.Input()), lookupsStr(fn.Output()))
